@@ -461,12 +461,13 @@ def gen_valid(chk):
     # orders 0..2 exhaustively (dims 0..3), every entry point
     for n in (0, 1, 2):
         fmts = all_formats(n)
-        for dims in itertools.product(range(4), repeat=n):
+        for dims in itertools.product(range(4 if (thorough or n < 2) else 3), repeat=n):
             cells = cells_of(dims)
-            subsets = pick_subsets(rng, cells, 256 if (thorough or len(cells) <= 8) else 64)
+            subsets = pick_subsets(rng, cells, (256 if len(cells) <= 8 else 256) if thorough else (16 if len(cells) <= 4 else 20))
             for modes, o in fmts:
-                for s in subsets:
-                    for ep in eps:
+                for j, s in enumerate(subsets):
+                    # thorough: every entry point for every subset; quick: two of the four, rotating
+                    for ep in (eps if thorough else [eps[j % 4], eps[(j + 1 + (j // 4) % 3) % 4]]):
                         c = make_variant(rng, modes, o, dims, s, ep, cells)
                         cases.append(add_extras(rng, c, fmts, 0.25, 0.25))
     # order 3: dims 0..2
@@ -482,7 +483,7 @@ def gen_valid(chk):
                     cases.append(add_extras(rng, c, fmts3, 0.02, 0.15))
     else:
         for modes, o in fmts3:
-            for _ in range(36):
+            for _ in range(12):
                 dims = tuple(rng.choice([0, 1, 2, 2, 2, 3]) for _ in range(3))
                 cells = cells_of(dims)
                 s = [x for x in cells if rng.random() < rng.choice([0.2, 0.5, 0.9])]
@@ -490,7 +491,7 @@ def gen_valid(chk):
                 k += 1
                 cases.append(add_extras(rng, c, fmts3, 0.03, 0.2))
     # wide dimensions (two-digit coordinates, sparse content), orders 1..3
-    for _ in range(4000 if thorough else 400):
+    for _ in range(4000 if thorough else 250):
         n = rng.choice([1, 2, 2, 3])
         modes, o = rng.choice(all_formats(n))
         dims = tuple(rng.choice([1, 5, 11, 12, 13]) for _ in range(n))
@@ -527,7 +528,7 @@ def gen_valid(chk):
 
 def gen_malformed(chk):
     rng = chk.rng
-    n_cases = 6000 if chk.tier == "thorough" else 1500
+    n_cases = 6000 if chk.tier == "thorough" else 700
     kinds = ["oor", "oor", "oor", "neg", "neg", "short", "long", "lenmismatch", "baddims", "ragged"]
     out = []
     fm = {n: all_formats(n) for n in range(0, 5)}
